@@ -69,7 +69,8 @@ def run(rep, tier, seed, replay):
         hh, mm_ = common.harness(), common.model()
         trees = [T("b:docs/r\xe9sum\xe9.txt", "b:docs/caf\xe9/menu.txt", "f:docs/plain.txt"),
                  T("b:\xff", "b:\xe9/\xe9/\xe9", "f:a/b"),
-                 T("b:a/\xc3", "b:a/b\xa0c/d.txt", "f:a/ok.txt", "d:a/e")]
+                 T("b:a/\xc3", "b:a/b\xa0c/d.txt", "f:a/ok.txt", "d:a/e"),
+                 T("f:doc/notes/2024\\q1.md", "f:doc/a\\b/c.txt", "f:a/x\\", "f:docs/plain.txt")]
         globs = ["**", "docs/**/*.txt", "*/*/*", "**/*.txt", "a/**", "*", "docs/*/menu.txt", "a/*/d.txt"]
         bb = [(tr, g, lk) for tr in trees for g in globs for lk in "ft"]
         if replay is not None:
@@ -91,6 +92,10 @@ def run(rep, tier, seed, replay):
             if mf.get("items") != f.get("items"):
                 rep.stats["correspondence-broken"] += 1
                 rep.violation("correspondence", "walk: ordered items of the real walk vs the walk model (names that are not UTF-8)", inp, impl=(f.get("items") or "")[:300], model=(mf.get("items") or mh)[:300])
+            for it in walklib.ok_items(f.get("items")):
+                if len(it) >= 7 and (it[5] != it[2] or it[6] != it[2]):
+                    rep.violation("oracle", "matched text %r / candidate path %r are not the relative segment %r (names with a backslash or bytes that are not UTF-8)" % (it[5], it[6], it[2]), inp, impl=a[:300])
+                    break
             if "joinfail" in f:
                 rep.violation("oracle", "for %s entries with a name that is not UTF-8 the root segment joined with the relative segment is not the entry's path (compared as OS paths)" % f["joinfail"], inp, impl=a[:300])
             else:
